@@ -369,6 +369,98 @@ func init() {
 			}
 		}})
 
+	register(&Obligation{ID: "C02.h", Props: []string{"C02", "C01"}, Template: "value-identity",
+		Desc: "a new alignment waits for the barrier of EVERY upstream source runner: handleCheckpointBarrier builds it with newCheckpoint(barrier id, sourceRunners.all), newCheckpoint turns exactly that list into the outstanding set, and upstreams.all is never changed after the deploy (a runner that has sent SourceComplete still sends barriers)",
+		Run: func(r *Run) {
+			f := r.P.Func("workers/operator", "(*Operator).handleCheckpointBarrier")
+			info := f.Pkg.TypesInfo
+			nc := r.P.Func("workers/operator", "newCheckpoint")
+			allF := r.P.Field("workers/operator", "upstreams", "all")
+			srF := r.P.Field("workers/operator", "Operator", "sourceRunners")
+			barrierID := r.P.Field("proto/workerpb", "CheckpointBarrier", "CheckpointId")
+			getID := r.P.FuncObj("proto/workerpb", "(*CheckpointBarrier).GetCheckpointId")
+			n := 0
+			ast.Inspect(f.Decl.Body, func(nd ast.Node) bool {
+				call, ok := nd.(*ast.CallExpr)
+				if !ok || r.P.CalleeFunc(info, call) != nc.Obj || len(call.Args) != 2 {
+					return true
+				}
+				n++
+				r.Site(call.Pos(), "newCheckpoint(barrier id, all upstream ids)")
+				idOK := prog.SelField(info, call.Args[0]) == barrierID
+				if c2, ok := ast.Unparen(call.Args[0]).(*ast.CallExpr); ok && r.P.CalleeFunc(info, c2) == getID {
+					idOK = true
+				}
+				if !idOK {
+					r.Fail(f.Name()+":new-checkpoint-id", call.Pos(), nil, "the alignment is not opened for the id of the barrier that arrived")
+				}
+				sel, ok := ast.Unparen(call.Args[1]).(*ast.SelectorExpr)
+				if !ok || prog.SelField(info, sel) != allF || prog.SelField(info, sel.X) != srF {
+					r.Fail(f.Name()+":new-checkpoint-upstreams", call.Pos(), nil, "the alignment does not wait for o.sourceRunners.all: a source runner that is left out (for instance one that already sent SourceComplete but still forwards barriers) can deliver events after the cut that end up in neither checkpoint consistently")
+				}
+				return true
+			})
+			if n == 0 {
+				r.Fail(f.Name()+":no-new-checkpoint", f.Decl.Pos(), nil, "handleCheckpointBarrier never opens an alignment")
+			}
+			// newCheckpoint: srIDs derives from its second parameter, id from the first
+			ni := nc.Pkg.TypesInfo
+			okIDs, okID := false, false
+			ast.Inspect(nc.Decl.Body, func(nd ast.Node) bool {
+				if kv, ok := nd.(*ast.KeyValueExpr); ok {
+					if id, ok := kv.Key.(*ast.Ident); ok {
+						switch id.Name {
+						case "srIDs":
+							okIDs = exprMentionsParam(ni, nc, kv.Value, 1)
+						case "checkpointID":
+							okID = r.isParam(nc, kv.Value, 0)
+						}
+					}
+				}
+				return true
+			})
+			r.Site(nc.Decl.Pos(), "newCheckpoint stores its id and the full sender set")
+			if !okIDs || !okID {
+				r.Fail(nc.Name()+":fields", nc.Decl.Pos(), nil, "newCheckpoint must build srIDs from the given source runner ids and checkpointID from the given id")
+			}
+			km := r.P.Func("util/sliceu", "KeyMap")
+			kmi := km.Pkg.TypesInfo
+			okKM := false
+			ast.Inspect(km.Decl.Body, func(nd ast.Node) bool {
+				if rs, ok := nd.(*ast.RangeStmt); ok && r.isParam(km, rs.X, 0) {
+					clean := true
+					ast.Inspect(rs.Body, func(m ast.Node) bool {
+						if _, ok := m.(*ast.BranchStmt); ok {
+							clean = false
+						}
+						return true
+					})
+					okKM = clean
+				}
+				return true
+			})
+			_ = kmi
+			if !okKM {
+				r.Fail(km.Name()+":all-keys", km.Decl.Pos(), nil, "sliceu.KeyMap does not put every element into the map")
+			}
+			// upstreams.all written only by its constructor
+			for _, fa := range r.fieldAccesses(allF) {
+				if !fa.Write || prog.IsTestSupport(fa.Use.Pkg.PkgPath) {
+					continue
+				}
+				where := r.scopeName(fa.Use.Scope)
+				r.Site(fa.Use.Ident.Pos(), "upstreams.all written in "+where)
+				if where != "workers/operator.newUpstreams" {
+					r.Fail("upstreams.all-write<-"+where, fa.Use.Ident.Pos(), nil, "upstreams.all is modified in %s: the set of senders an alignment waits for would shrink", where)
+				}
+			}
+			// deactivate only touches .active
+			da := r.P.Func("workers/operator", "(*upstreams).deactivate")
+			if exprUsesField(da.Pkg.TypesInfo, da.Decl.Body, allF) {
+				r.Fail(da.Name()+":touches-all", da.Decl.Pos(), nil, "deactivate uses upstreams.all")
+			}
+		}})
+
 	register(&Obligation{ID: "C02.e", Props: []string{"C02"}, Template: "confinement",
 		Desc: "the operator's state-mutating handlers (handleUserEvent, handleWatermark, handleCheckpointBarrier, handleSourceComplete, processEventBatch) are invoked only on the event loop: from processEvents, from each other, or from closures sent on o.events",
 		Run: func(r *Run) {
